@@ -172,7 +172,9 @@ func c04Opts() (o specOpts, msg verif.Opts, bsWidth int) {
 		msg = verif.Opts{Depth: 1, Width: 2, Finite: true, NoVar: true, NoVarKeys: true, Pool: poolKeys, ValPool: []string{"n1"},
 			Tags: verif.TMap | verif.TNil | verif.TStr, Leaf: verif.TStr | verif.TF64}
 		if thorough {
-			o.branches = 3
+			// (three guarded vocabulary branches did not finish in 15 minutes: wider messages instead)
+			msg.Width = 2
+			msg.ValPool = []string{"n1", "zz"}
 		}
 	case 2:
 		o = specOpts{actionMode: 0, noNilBranches: true, noMessage: true, branches: 1, patMode: 0, fixedErr: true, pooled: false}
@@ -196,8 +198,6 @@ func c04Opts() (o specOpts, msg verif.Opts, bsWidth int) {
 			actKinds: []int{aSet, aFail, aNilBs}, grdKinds: []int{aIdent, aNilBs, aFail}, fixedTarget: true, pooled: true}
 		if thorough {
 			o.branches = 2
-			o.actKinds = kindsAction
-			o.grdKinds = kindsGuard
 		}
 	}
 	return o, msg, bsWidth
